@@ -92,6 +92,20 @@ func genRace(t *rapid.T) RaceCase {
 		return RaceCase{Target: "tokens", Readers: rapid.IntRange(2, 5).Draw(t, "readers"), Rotators: rapid.IntRange(2, 4).Draw(t, "savers"),
 			IDs: racePool[:rapid.IntRange(1, 3).Draw(t, "contexts")], Millis: 250, Seed: rapid.Uint64().Draw(t, "seed")}
 	}
+	if rapid.IntRange(0, 3).Draw(t, "v2") == 0 {
+		// keystore v2: one handle on a directory or an in-memory back end; a third of the rounds has readers only
+		c := RaceCase{Target: "v2", Cache: rapid.SampledFrom([]string{"dir", "dir", "mem"}).Draw(t, "backend")}
+		c.Readers = rapid.IntRange(3, 8).Draw(t, "readers")
+		c.Rotators = rapid.SampledFrom([]int{0, 1, 2}).Draw(t, "rotators")
+		c.IDs = racePool[:rapid.IntRange(2, 4).Draw(t, "ids")]
+		c.Kinds = rapid.SliceOfNDistinct(rapid.SampledFrom(kshist.Kinds), 2, 5, rapid.ID[string]).Draw(t, "kinds")
+		sort.Strings(c.Kinds)
+		c.Warm = rapid.Bool().Draw(t, "warm")
+		c.Millis = 400
+		c.MaxRot = rapid.IntRange(4, 10).Draw(t, "maxrot")
+		c.Seed = rapid.Uint64().Draw(t, "seed")
+		return c
+	}
 	c := RaceCase{Target: "v1", Cache: rapid.SampledFrom([]string{kshist.CacheOne, kshist.CacheOne, kshist.CacheInf}).Draw(t, "cache")}
 	c.Readers = rapid.IntRange(2, 6).Draw(t, "readers")
 	c.Rotators = rapid.IntRange(1, 2).Draw(t, "rotators")
@@ -124,7 +138,7 @@ func TestV1RaceWorker(t *testing.T) {
 	for i, c := range j.Rounds {
 		if c.Target == "tokens" {
 			out[i] = tokenRound(c)
-		} else {
+		} else { // v1 and v2
 			out[i] = v1Round(c)
 		}
 		ob, _ := json.Marshal(out[:i+1])
@@ -164,11 +178,22 @@ func v1Round(c RaceCase) (res roundRes) {
 			res.History = append(res.History, fmt.Sprintf(format, args...))
 		}
 	}
-	dir := fix.TempDir("c17-v1-")
-	defer os.RemoveAll(dir)
-	shared, err := kshist.NewV1On(dir, nil, c.Cache)
+	tag := c.Target
+	var shared kshist.Fixture
+	var err error
+	switch {
+	case c.Target == "v2" && c.Cache == "mem":
+		shared = kshist.NewV2Mem()
+	case c.Target == "v2":
+		shared, err = kshist.NewV2Dir()
+	default:
+		tag = "v1"
+		dir := fix.TempDir("c17-v1-")
+		defer os.RemoveAll(dir)
+		shared, err = kshist.NewV1On(dir, nil, c.Cache)
+	}
 	if err != nil {
-		res.Vs.Add("harness:v1-open", "%v", err)
+		res.Vs.Add("harness:"+tag+"-open", "%v", err)
 		return
 	}
 	defer shared.Close()
@@ -185,7 +210,7 @@ func v1Round(c RaceCase) (res roundRes) {
 	// single-threaded preparation through a cache-less handle
 	prep, err := shared.Observer()
 	if err != nil {
-		res.Vs.Add("harness:v1-open", "%v", err)
+		res.Vs.Add("harness:"+tag+"-open", "%v", err)
 		return
 	}
 	known := newObservation()
@@ -200,11 +225,11 @@ func v1Round(c RaceCase) (res roundRes) {
 	}
 	for _, k := range keysInPlay {
 		if err := prep.Generate(k.kind, k.id); err != nil {
-			res.Vs.Add("harness:v1-prepare", "generate %s: %v", k, err)
+			res.Vs.Add("harness:"+tag+"-prepare", "generate %s: %v", k, err)
 			return
 		}
 		if err := learn(prep, known, k); err != nil {
-			res.Vs.Add("harness:v1-prepare", "read %s: %v", k, err)
+			res.Vs.Add("harness:"+tag+"-prepare", "read %s: %v", k, err)
 			return
 		}
 		if c.Warm {
@@ -263,7 +288,7 @@ func v1Round(c RaceCase) (res roundRes) {
 		rotKnown[g] = newObservation()
 		obs, err := shared.Observer()
 		if err != nil {
-			res.Vs.Add("harness:v1-open", "%v", err)
+			res.Vs.Add("harness:"+tag+"-open", "%v", err)
 			stop.Store(true)
 			wg.Wait()
 			return
@@ -308,7 +333,7 @@ func v1Round(c RaceCase) (res roundRes) {
 	// single-threaded again: everything ever generated, from a cache-less handle
 	after, err := shared.Observer()
 	if err != nil {
-		res.Vs.Add("harness:v1-open", "%v", err)
+		res.Vs.Add("harness:"+tag+"-open", "%v", err)
 		return
 	}
 	defer after.Close()
@@ -327,17 +352,17 @@ func v1Round(c RaceCase) (res roundRes) {
 			}
 		}
 		for _, e := range rotErrs[g] {
-			res.Vs.Add("rotate-error:v1", "cache=%s: %s", c.Cache, e)
+			res.Vs.Add("rotate-error:"+tag, "cache=%s: %s", c.Cache, e)
 		}
 	}
 	for _, k := range keysInPlay {
 		if err := learn(after, known, k); err != nil {
-			res.Vs.Add("read-error:v1-after", "cache-less handle after the round: current key of %s: %v", k, err)
+			res.Vs.Add("read-error:"+tag+"-after", "cache-less handle after the round: current key of %s: %v", k, err)
 		}
 		if kshist.HasAllKeys(k.kind) {
 			all, err := after.All(k.kind, k.id)
 			if err != nil {
-				res.Vs.Add("read-error:v1-after", "cache-less handle after the round: all keys of %s: %v", k, err)
+				res.Vs.Add("read-error:"+tag+"-after", "cache-less handle after the round: all keys of %s: %v", k, err)
 			}
 			// every generation the rotator learnt must still be on storage
 			have := map[string]bool{}
@@ -346,7 +371,7 @@ func v1Round(c RaceCase) (res roundRes) {
 			}
 			for v := range known.secrets[k] {
 				if err == nil && !have[v] {
-					res.Vs.Add("generation-lost:v1", "cache=%s: a key of %s that was current after one of the rotations (…%s) is not among the %d keys on storage after the round", c.Cache, k, short(v), len(all))
+					res.Vs.Add("generation-lost:"+tag, "cache=%s: a key of %s that was current after one of the rotations (…%s) is not among the %d keys on storage after the round", c.Cache, k, short(v), len(all))
 				}
 			}
 			for _, b := range all {
@@ -354,11 +379,11 @@ func v1Round(c RaceCase) (res roundRes) {
 			}
 		}
 	}
-	hist("round v1 cache=%s readers=%d rotators=%d keys=%d rotations=%d", c.Cache, c.Readers, c.Rotators, len(keysInPlay), res.Rotations)
+	hist("round "+tag+" cache=%s readers=%d rotators=%d keys=%d rotations=%d", c.Cache, c.Readers, c.Rotators, len(keysInPlay), res.Rotations)
 	for g, o := range readers {
 		res.Reads += o.reads
 		for _, e := range o.errs {
-			res.Vs.Add("read-error:v1", "cache=%s reader %d: %s", c.Cache, g, e)
+			res.Vs.Add("read-error:"+tag, "cache=%s reader %d: %s", c.Cache, g, e)
 		}
 		check := func(what string, got, want map[keyID]map[string]bool) {
 			for k, m := range got {
@@ -370,7 +395,7 @@ func v1Round(c RaceCase) (res roundRes) {
 								owner = "a key of " + k2.String()
 							}
 						}
-						res.Vs.Add("foreign-key-value:v1", "cache=%s reader %d: a read of %s returned a %s (%d bytes, …%s) that was never generated for it: it is %s; %d values are known for %s", c.Cache, g, k, what, len(v)/2, short(v), owner, len(want[k]), k)
+						res.Vs.Add("foreign-key-value:"+tag, "cache=%s reader %d: a read of %s returned a %s (%d bytes, …%s) that was never generated for it: it is %s; %d values are known for %s", c.Cache, g, k, what, len(v)/2, short(v), owner, len(want[k]), k)
 					}
 				}
 			}
@@ -589,13 +614,19 @@ func runRounds(rounds []RaceCase, timeout time.Duration) (vsByTarget map[string]
 			vsByTarget[rounds[i].Target] = append(vsByTarget[rounds[i].Target], r.Vs...)
 		}
 	}
-	target := "v1"
+	base := "v1" // the key store of the chunk: TestV1Race keeps v1 and v2 rounds in separate children
+	for _, c := range rounds {
+		if c.Target == "v2" {
+			base = "v2"
+		}
+	}
+	target := base
 	if len(rounds) > 0 && len(results) < len(rounds) {
 		target = rounds[len(results)].Target // the round that was running when the child died
 	}
 	if reports := raceReports(output); len(reports) > 0 {
 		// attribute to the target whose frames appear; default v1
-		sig := "data-race:v1"
+		sig := "data-race:" + base
 		if strings.Contains(strings.Join(reports, " "), "MemoryTokenStorage") {
 			sig = "data-race:tokens"
 		}
@@ -608,7 +639,7 @@ func runRounds(rounds []RaceCase, timeout time.Duration) (vsByTarget map[string]
 		}
 		var v hx.Vs
 		v.Add(sig, "the race detector reported %d distinct conflicting access pairs: %s || first report: %s", len(reports), strings.Join(reports, " | "), tail)
-		t := "v1"
+		t := base
 		if sig == "data-race:tokens" {
 			t = "tokens"
 		}
@@ -630,7 +661,7 @@ func runRounds(rounds []RaceCase, timeout time.Duration) (vsByTarget map[string]
 		if i := strings.Index(output, "panic: "); i >= 0 && !strings.Contains(output, "test timed out") {
 			var v hx.Vs
 			site := hx.PanicFunc(output[i:])
-			v.Add("panic:v1race@"+site, "the workload process panicked: %s", tail)
+			v.Add("panic:"+target+"race@"+site, "the workload process panicked: %s", tail)
 			vsByTarget[target] = append(v, vsByTarget[target]...)
 		} else {
 			harness = fmt.Sprintf("child process failed (%v) without a race report or a panic: %s", runErr, tail)
@@ -650,13 +681,20 @@ func TestV1Race(t *testing.T) {
 	if len(rounds) > n {
 		rounds = rounds[:n]
 	}
+	// v2 rounds go last and into children of their own: a race report carries no round number
+	sort.SliceStable(rounds, func(i, j int) bool { return rounds[i].Target != "v2" && rounds[j].Target == "v2" })
 	// one child per chunk keeps a failure close to its round
 	const chunk = 14
 	reads, rots := 0, 0
-	for at := 0; at < len(rounds); at += chunk {
-		end := at + chunk
+	for at, end := 0, 0; at < len(rounds); at = end {
+		end = at + chunk
 		if end > len(rounds) {
 			end = len(rounds)
+		}
+		for e := at + 1; e < end; e++ {
+			if (rounds[e].Target == "v2") != (rounds[at].Target == "v2") {
+				end = e
+			}
 		}
 		part := rounds[at:end]
 		vsBy, results, _, harness := runRounds(part, 20*time.Minute)
@@ -665,10 +703,13 @@ func TestV1Race(t *testing.T) {
 			if i < len(results) {
 				reads += results[i].Reads
 				rots += results[i].Rotations
-				nontrivial = results[i].Reads > 0 && results[i].Rotations > 0
+				nontrivial = results[i].Reads > 0 && (results[i].Rotations > 0 || (c.Target == "v2" && c.Rotators == 0))
 			}
 			cls := []string{"target:" + c.Target}
-			if c.Target == "v1" {
+			if c.Target == "v2" {
+				cls = append(cls, "backend:"+c.Cache, fmt.Sprintf("rotators:%d", c.Rotators))
+			}
+			if c.Target != "tokens" {
 				cls = append(cls, "cache:"+c.Cache, fmt.Sprintf("warm:%v", c.Warm))
 				for _, k := range c.Kinds {
 					cls = append(cls, "kind:"+k)
@@ -681,7 +722,7 @@ func TestV1Race(t *testing.T) {
 			t.Errorf("inconclusive: %s", harness)
 			return
 		}
-		for _, target := range []string{"v1", "tokens"} {
+		for _, target := range []string{"v1", "v2", "tokens"} {
 			vs := vsBy[target]
 			if len(vs) == 0 {
 				continue
@@ -736,5 +777,5 @@ func replayRace(raw json.RawMessage) hx.Vs {
 	if harness != "" {
 		R.Note("TestReplay: TestV1Race replay inconclusive: %s", harness)
 	}
-	return append(vsBy["v1"], vsBy["tokens"]...)
+	return append(append(vsBy["v1"], vsBy["v2"]...), vsBy["tokens"]...)
 }
